@@ -157,7 +157,8 @@ Proof.
     destruct (Nat.ltb (length b) size) eqn:E2; [discriminate|].
     destruct (forallb (N.eqb 0) (firstn (length b - size) b)) eqn:E3; [discriminate|].
     intros _. apply Nat.eqb_neq in E1. apply Nat.ltb_ge in E2.
-    rewrite <- (firstn_skipn (length b - size) b) at 2.
+    replace (be_val b) with (be_val (firstn (length b - size) b ++ skipn (length b - size) b))
+      by (rewrite firstn_skipn; reflexivity).
     rewrite be_val_app, skipn_length.
     replace (length b - (length b - size))%nat with size by lia.
     pose proof (be_val_pos _ (not_all_zero _ E3)). nia.
@@ -217,3 +218,123 @@ Proof.
     rewrite Hv. reflexivity.
   - rewrite (proj1 (ec_coord_norm_spec cs b Hb) G) in E. discriminate.
 Qed.
+
+(* ------------------------------------------------------------------ *)
+(* enum tables (SerialTables.v): facts by computation over the finite
+   tables, re-checked whenever the tables are regenerated                *)
+(* ------------------------------------------------------------------ *)
+Lemma lookup_in t k x : lookup t k = Some x -> In (k, x) t.
+Proof.
+  induction t as [|[a b] t IH]; cbn [lookup]; [discriminate|].
+  destruct (a =? k) eqn:E; intros H.
+  - apply N.eqb_eq in E. inversion H; subst. left. reflexivity.
+  - right. apply IH. exact H.
+Qed.
+
+Lemma lookup_bytes_in {A} (t : list (bytes * A)) k x : lookup_bytes t k = Some x -> exists k', In (k', x) t.
+Proof.
+  induction t as [|[a b] t IH]; cbn [lookup_bytes]; [discriminate|].
+  destruct (beq a k); intros H.
+  - inversion H; subst. exists a. left. reflexivity.
+  - destruct (IH H) as [k' Hk]. exists k'. right. exact Hk.
+Qed.
+
+(* Go enum -> proto enum -> Go enum is the identity on every listed value *)
+Definition fwd_ok (to_p from_p : list (N * N)) : bool :=
+  forallb (fun vp => match lookup from_p (snd vp) with Some v => v =? fst vp | None => false end) to_p.
+(* proto enum -> Go enum -> proto enum is the identity, except that the
+   OutputPrefixType maps may send LEGACY (2) to the variant that is written
+   back as CRUNCHY (4) *)
+Definition bwd_ok (isp : bool) (to_p from_p : list (N * N)) : bool :=
+  forallb (fun pv => match lookup to_p (snd pv) with
+                     | Some p => (p =? fst pv) || (isp && (fst pv =? 2) && (p =? 4))
+                     | None => false
+                     end) from_p.
+(* what is written back parses to the same Go value again *)
+Definition stable_ok (to_p from_p : list (N * N)) : bool :=
+  forallb (fun pv => match lookup to_p (snd pv) with
+                     | Some p => match lookup from_p p with Some v => v =? snd pv | None => false end
+                     | None => false
+                     end) from_p.
+Definition keys_distinct (t : list (N * N)) : bool := nodupb (map fst t).
+
+Definition pair_ok (x : bool * list (N * N) * list (N * N)) : bool :=
+  let '(isp, to_p, from_p) := x in
+  keys_distinct to_p && keys_distinct from_p && fwd_ok to_p from_p && bwd_ok isp to_p from_p && stable_ok to_p from_p.
+
+Lemma enum_pairs_ok : forallb pair_ok enum_map_pairs = true.
+Proof. vm_compute. reflexivity. Qed.
+
+Lemma fwd_ok_spec to_p from_p : fwd_ok to_p from_p = true ->
+  forall v p, lookup to_p v = Some p -> lookup from_p p = Some v.
+Proof.
+  intros H v p Hl. apply lookup_in in Hl. unfold fwd_ok in H. rewrite forallb_forall in H.
+  specialize (H _ Hl). cbn [fst snd] in H. destruct (lookup from_p p); [|discriminate].
+  apply N.eqb_eq in H. congruence.
+Qed.
+
+Lemma bwd_ok_spec isp to_p from_p : bwd_ok isp to_p from_p = true ->
+  forall p v, lookup from_p p = Some v ->
+    lookup to_p v = Some p \/ (isp = true /\ p = 2 /\ lookup to_p v = Some 4).
+Proof.
+  intros H p v Hl. apply lookup_in in Hl. unfold bwd_ok in H. rewrite forallb_forall in H.
+  specialize (H _ Hl). cbn [fst snd] in H. destruct (lookup to_p v) as [p'|]; [|discriminate].
+  apply orb_true_iff in H. destruct H as [H|H].
+  - apply N.eqb_eq in H. left. congruence.
+  - apply andb_true_iff in H. destruct H as [H H3]. apply andb_true_iff in H. destruct H as [H1 H2].
+    apply N.eqb_eq in H2, H3. right. subst. auto.
+Qed.
+
+Lemma stable_ok_spec to_p from_p : stable_ok to_p from_p = true ->
+  forall p v, lookup from_p p = Some v -> exists p', lookup to_p v = Some p' /\ lookup from_p p' = Some v.
+Proof.
+  intros H p v Hl. apply lookup_in in Hl. unfold stable_ok in H. rewrite forallb_forall in H.
+  specialize (H _ Hl). cbn [fst snd] in H. destruct (lookup to_p v) as [p'|]; [|discriminate].
+  exists p'. split; [reflexivity|]. destruct (lookup from_p p'); [|discriminate].
+  apply N.eqb_eq in H. congruence.
+Qed.
+
+(* every enum map pair of every protoserialization.go round-trips *)
+Theorem enum_maps_roundtrip isp to_p from_p :
+  In (isp, to_p, from_p) enum_map_pairs ->
+  (forall v p, lookup to_p v = Some p -> lookup from_p p = Some v) /\
+  (forall p v, lookup from_p p = Some v ->
+     lookup to_p v = Some p \/ (isp = true /\ p = 2 /\ lookup to_p v = Some 4)) /\
+  (forall p v, lookup from_p p = Some v -> exists p', lookup to_p v = Some p' /\ lookup from_p p' = Some v).
+Proof.
+  intros Hin. pose proof enum_pairs_ok as H. rewrite forallb_forall in H. specialize (H _ Hin).
+  unfold pair_ok in H. rewrite !andb_true_iff in H. destruct H as ((((_ & _) & F) & B) & S).
+  repeat split; [apply fwd_ok_spec; exact F | eapply bwd_ok_spec; exact B | apply stable_ok_spec; exact S].
+Qed.
+
+(* the LEGACY -> CRUNCHY collapse really occurs (it is the only non-injective case) *)
+Lemma legacy_collapse_example :
+  lookup aead_aesgcm_variantFromProto 2 = lookup aead_aesgcm_variantFromProto 4 /\
+  (exists v, lookup aead_aesgcm_variantFromProto 2 = Some v /\ lookup aead_aesgcm_protoOutputPrefixTypeFromVariant v = Some 4).
+Proof. split; [reflexivity | exists 2; split; reflexivity]. Qed.
+
+(* JWT: strategy -> prefix -> strategy, where the presence of a custom kid is
+   what distinguishes CustomKID from IgnoredKID (both are written as RAW) *)
+Definition jwt_ok (x : N * list (N * N) * list (N * N) * list (N * N)) : bool :=
+  let '(custom, to_p, from_p, from_kid) := x in
+  keys_distinct to_p && keys_distinct from_p && keys_distinct from_kid &&
+  forallb (fun vp => match lookup (if fst vp =? custom then from_kid else from_p) (snd vp) with
+                     | Some v => v =? fst vp | None => false end) to_p &&
+  stable_ok to_p from_p && stable_ok to_p from_kid &&
+  (* with a custom kid only RAW yields CustomKID *)
+  forallb (fun pv => negb (snd pv =? custom) || (fst pv =? 3)) from_kid &&
+  forallb (fun pv => negb (snd pv =? custom)) from_p.
+Lemma jwt_maps_ok : forallb jwt_ok jwt_custom_kid_maps = true.
+Proof. vm_compute. reflexivity. Qed.
+
+(* per registered type URL *)
+Definition pm_ok (e : bytes * (N * (N * (list (N * N) * (list (N * N) * list (N * N)))))) : bool :=
+  let '(_, (kind, (custom, (to_p, (from_p, from_kid))))) := e in
+  if kind =? 2 then
+    forallb (fun vp => match lookup (if fst vp =? custom then from_kid else from_p) (snd vp) with
+                       | Some v => v =? fst vp | None => false end) to_p
+    && stable_ok to_p from_p && stable_ok to_p from_kid
+  else if kind =? 1 then true
+  else (kind =? 0) && fwd_ok to_p from_p && stable_ok to_p from_p.
+Lemma prefix_maps_ok : forallb pm_ok prefix_maps = true.
+Proof. vm_compute. reflexivity. Qed.
